@@ -310,6 +310,37 @@ func RuleKRegistryOrigin(c *core.Ctx) {
 						}
 					})
 				}
+				// the field's address handed out (a table of {flag, &p.field} pairs): the
+				// stores through pointers of that type in the same function assign it
+				for _, fn := range p.SrcFuncs() {
+					taken := false
+					core.EachInstr(fn, func(ins ssa.Instruction) {
+						if st, ok := ins.(*ssa.Store); ok {
+							if fa, ok := st.Val.(*ssa.FieldAddr); ok && core.FieldOf(fa) == fv {
+								taken = true
+							}
+						}
+					})
+					if !taken {
+						continue
+					}
+					core.EachInstr(fn, func(ins ssa.Instruction) {
+						st, ok := ins.(*ssa.Store)
+						if !ok {
+							return
+						}
+						switch st.Addr.(type) {
+						case *ssa.FieldAddr, *ssa.Alloc, *ssa.IndexAddr:
+							return
+						}
+						if pt, ok := st.Addr.Type().Underlying().(*types.Pointer); ok && types.Identical(pt.Elem(), fv.Type()) {
+							nst++
+							if w := fromRegistry(st.Val, seen); w != "" {
+								bad = w
+							}
+						}
+					})
+				}
 				if nst == 0 {
 					return "field " + p.FieldRef(fv) + " that is never assigned"
 				}
